@@ -65,3 +65,18 @@ func (verifLogger) Warningf(string, ...interface{}) {}
 func (verifLogger) Infof(string, ...interface{})    {}
 func (verifLogger) Debugf(string, ...interface{})   {}
 func (verifLogger) Close() error                    { return nil }
+
+// VerifNewWriteOnlyTx builds a write-only store transaction over a minimal store (no indexers):
+// used by harnesses of other packages (embedded/sql) that need a live OngoingTx.
+func VerifNewWriteOnlyTx() *OngoingTx {
+	st := &ImmuStore{maxKeyLen: 1024, maxValueLen: 4096, maxTxEntries: 1024, logger: verifLogger{}}
+	return &OngoingTx{
+		st:               st,
+		mode:             WriteOnlyTx,
+		entriesByKey:     make(map[[32]byte]int),
+		transientEntries: make(map[int]*EntrySpec),
+	}
+}
+
+// VerifPendingEntries exposes the pending write set of a transaction.
+func VerifPendingEntries(tx *OngoingTx) []*EntrySpec { return tx.entries }
